@@ -4,13 +4,13 @@
 namespace {
 template<class T, int D> void run_td(vp::Input const& in, vp::Ctx& ctx) {
 	vp::obs().reset();
-	ctx.desc << (std::is_same_v<T, int> ? "int" : "Tracked") << " D=" << D;
+	ctx.desc << (std::is_same_v<T, int> ? "int" : std::is_same_v<T, vp::Init> ? "Init" : "Tracked") << " D=" << D;
 	vp::Machine<vp::MCfg<T, std::allocator<T>>, D> M(ctx);
 	M.enabled = vp::kResizeOps;
 	M.run(in);
 	ctx.nontrivial = M.nt;
 	static char const* const dl[] = {"D0", "D1", "D2", "D3", "D4"};
-	ctx.label(dl[D]); ctx.label(std::is_same_v<T, int> ? "T_int" : "T_Tracked");
+	ctx.label(dl[D]); ctx.label(std::is_same_v<T, int> ? "T_int" : std::is_same_v<T, vp::Init> ? "T_Init" : "T_Tracked");
 }
 }  // namespace
 
@@ -20,6 +20,15 @@ struct Prop {
 	static void run(vp::Input const& in, vp::Ctx& ctx) {
 		using vp::Tracked;
 		bool tr = (in.head(0) & 1U) != 0;
+		// one case in eight: an element type that is trivially destructible but not trivially default constructible (new elements must still be value-initialised)
+		if(!tr && (in.head(0) & 6U) == 6U) {
+			switch(in.head(1) % 4) {
+				case 0: run_td<vp::Init, 1>(in, ctx); break;
+				case 1: case 3: run_td<vp::Init, 2>(in, ctx); break;
+				default: run_td<vp::Init, 3>(in, ctx); break;
+			}
+			return;
+		}
 		switch(in.head(1) % 4) {
 			case 0: tr ? run_td<Tracked, 1>(in, ctx) : run_td<int, 1>(in, ctx); break;
 			case 1: tr ? run_td<Tracked, 2>(in, ctx) : run_td<int, 2>(in, ctx); break;
